@@ -24,7 +24,7 @@ func (c02) Describe() engine.Info {
 	return engine.Info{
 		Rule: "same lock-step executions as C01, plus directed programs that run every opcode (conditional ones with all 16 flag nibbles, so both outcomes of every condition occur). Oracle: cycles between instruction boundaries = documented length of the reference SM83 (taken/not-taken from the flags at decision time); the repository's own cycle table is not consulted. " +
 			"Signature = (opcode, taken/not-taken or length, interrupt line rose mid-instruction)." +
-			" Classes program-dma (OAM DMA transfers started by the scheduler while the program runs) and program-frame-boundary (the program crosses the boundary between two passes of the frame loop); a stray halted state after an instruction other than HALT counts. Programs occasionally load the verdict register patterns of the repository's test ROMs (3,5,8,13,21,34 / 0x42 six times) and execute marker self-loads (LD B,B ...): one cycle each like any load.",
+			" Classes program-dma (OAM DMA transfers started by the scheduler while the program runs) and program-frame-boundary (the program crosses the boundary between two passes of the frame loop); a stray halted state after an instruction other than HALT counts. Programs occasionally load the verdict register patterns of the repository's test ROMs (3,5,8,13,21,34 / 0x42 six times) and execute marker self-loads (LD B,B ...): one cycle each like any load. Class idiom-loops: the wait loops guests are made of (LY / STAT / DIV polls, counted delays) with the LCD on; key events are delivered while programs run.",
 		Assumptions: []string{
 			"the idle period of HALT, the wake-up from it and the interrupt dispatch lengths are judged by C04/C05, not here (a HALT that does not idle is: class halt-no-idle)",
 			"instruction-stream fetch timing is not observable at cycle boundaries and not judged",
